@@ -34,6 +34,8 @@ func checkC06(c *Ctx) {
 	c.Rule("R6.1", "Logger.check attaches the terminal hook unconditionally for Panic/Fatal (DPanic iff development), after the only legal early return", 12)
 	c.Rule("R6.2", "every front-end entry routes its level constant to the checking helper and reaches CheckedEntry.Write unless ce == nil", 50)
 	c.Rule("R6.3", "CheckedEntry.Write: all cores, then the hook, then recycle", 3)
+	c.Rule("R6.9", "Check discipline of every zapcore.Core implementation: a core that does not accept an entry hands back the checked entry it was given (an earlier branch's acceptance - and with it the write before the terminal hook - survives)", 8)
+	c.As(map[string]string{"R5.1": "R6.9"}, func() { c5CheckDiscipline(c) })
 	c.Rule("R6.4", "ioCore.Write syncs after the write for DPanic/Panic/Fatal; BufferedWriteSyncer.Sync always syncs the sink", 4)
 	c.Rule("R6.5", "default actions: panic(message) / exit.With(1) -> os.Exit / Goexit; exit function only written by the stub helpers, which non-test code never calls", 5)
 	c.Rule("R6.7", "Config wires development mode (DPanic panics) exactly under Config.Development", 1)
